@@ -43,7 +43,7 @@ pub fn tail(real: &Real) -> String {
 }
 
 /// C02 oracle: the bytes alone, opened in both modes, give the live dump.
-fn reopen_violation(real: &mut Real) -> Option<String> {
+pub fn reopen_violation(real: &mut Real) -> Option<String> {
     let live = real.dump();
     let bytes = real.image();
     for strict in [false, true] {
@@ -385,4 +385,89 @@ pub fn replay(ops_path: &str, impl_path: &str) -> Vec<String> {
     }
     std::fs::write(impl_path, impl_out).unwrap();
     violations
+}
+
+/// C04: synthesised foreign layouts.  For each case: the library must open the image in both modes and
+/// expose exactly the logical content that was laid out; then a short history runs on the opened file
+/// (results against the abstract model, reopen oracle at the end).  Images go to `<outdir>/L<k>.cfb`
+/// (for the Raw model and SpecCheck), the mutated ones to `<outdir>/L<k>_after.cfb`.
+pub fn layouts(seed: u64, count: u64, outdir: &str, big: bool) -> Outcome {
+    use crate::layout::*;
+    let mut rng = Rng::new(seed);
+    let mut out = Outcome { ops: 0, histories: 0, hist: Default::default(), distinct: Default::default(), violations: vec![] };
+    for k in 0..count {
+        let mut r = rng.fork();
+        let tree = gen_tree(&mut r, if big { 40 } else { 14 }, big);
+        let cfg = LayoutCfg { v4: r.chance(1, 2), wrap_to_zero: r.chance(1, 3), free_gaps: r.chance(2, 3), extra_dir_sector: r.chance(1, 4) };
+        let img = build(&tree, &cfg, &mut r);
+        let path = format!("{}/L{}.cfb", outdir, k);
+        std::fs::write(&path, &img).unwrap();
+        out.distinct.insert(fnv(&img));
+        *out.hist.entry(format!("layout:v{}{}{}", if cfg.v4 { 4 } else { 3 }, if cfg.wrap_to_zero { "+wrap" } else { "" }, if cfg.free_gaps { "+gaps" } else { "" })).or_insert(0) += 1;
+        let mut model = RefModel::new();
+        model.apply("create 3");
+        let mut lines = Vec::new();
+        ops_of(&tree, &mut lines);
+        for l in &lines {
+            if model.apply(l).as_deref() != Some("ok") {
+                out.violations.push(format!("layout {} (seed {}): harness error: reference model refused {}", k, seed, short(l)));
+            }
+        }
+        let expected = model.dump();
+        let mut bad = false;
+        for strict in [true, false] {
+            let mode = if strict { "strict" } else { "permissive" };
+            let got = catch(|| {
+                let r = if strict { CompoundFile::open_strict(std::io::Cursor::new(img.clone())) } else { CompoundFile::open(std::io::Cursor::new(img.clone())) };
+                match r {
+                    Ok(c) => crate::api::dump_of(c),
+                    Err(e) => format!("err {} ({})", err_kind(&e), e),
+                }
+            }).unwrap_or_else(|m| format!("panic {}", m));
+            out.ops += 1;
+            if got != expected {
+                bad = true;
+                out.violations.push(format!("layout {} (seed {}): {} open of {} gives {} but the file encodes {}", k, seed, mode, path, short(&got), short(&expected)));
+            }
+        }
+        if bad {
+            continue;
+        }
+        // mutate the foreign file
+        let mut real = Real::new();
+        let shared = SharedFile::new(img.clone());
+        real.file = Some(crate::backend::ImageSource::Mem(shared.clone()));
+        real.comp = CompoundFile::open(crate::backend::Backend::Mem(shared)).ok();
+        let pool = ["a", "Zeta", "new1", "new2", "x10", "日本"];
+        for step in 0..(4 + r.below(10)) {
+            let streams: Vec<String> = model.all_paths().into_iter().filter(|(_, s)| *s).map(|(p, _)| p).collect();
+            let storages: Vec<String> = model.all_paths().into_iter().filter(|(p, s)| !*s && p != "/").map(|(p, _)| p).collect();
+            let parent = if !storages.is_empty() && r.chance(1, 3) { r.pick(&storages).clone() } else { String::new() };
+            let line = match r.below(10) {
+                0..=3 => format!("put {} {}", enc(&format!("{}/{}", parent, r.pick(&pool))), hex(&pattern(*r.pick(SIZES), step))),
+                4 | 5 if !streams.is_empty() => format!("rm {}", enc(&r.pick(&streams)[..])),
+                6 => format!("mkdir {}", enc(&format!("{}/{}", parent, r.pick(&pool)))),
+                7 if !storages.is_empty() => format!("rmall {}", enc(&r.pick(&storages)[..])),
+                8 if !streams.is_empty() => format!("get {}", enc(&r.pick(&streams)[..])),
+                _ => "walk".to_string(),
+            };
+            let observed = real.exec(&line);
+            out.ops += 1;
+            if let Some(exp) = model.apply(&line) {
+                if exp != observed {
+                    out.violations.push(format!("layout {} (seed {}): after opening {}: step {}: {} gave {} but the abstract tree model says {}", k, seed, path, step, short(&line), short(&observed), short(&exp)));
+                    bad = true;
+                    break;
+                }
+            }
+        }
+        if !bad {
+            if let Some(v) = catch(|| reopen_violation(&mut real)).unwrap_or_else(|m| Some(format!("panic while reopening the bytes: {}", m))) {
+                out.violations.push(format!("layout {} (seed {}): after mutating {}: {}", k, seed, path, v));
+            }
+            std::fs::write(format!("{}/L{}_after.cfb", outdir, k), real.image()).unwrap();
+        }
+        out.histories += 1;
+    }
+    out
 }
